@@ -10,11 +10,11 @@ from .npmodel import AArr, SymScalar
 
 # pairwise distinct lengths for full dimensions and for the selections taken from them, so that no two
 # axes that are not the same axis ever agree in length (a positional mix-up cannot hide behind a shape)
-LENGTHS = {"a": 5, "b": 7, "c": 11, "d": 13, "e": 17, "t": 19}
+LENGTHS = {"a": 5, "b": 7, "c": 11, "d": 13, "e": 17, "t": 19, "s": 1}
 SUBSET_POS = {"a": [4, 0], "b": [6, 0, 3], "c": [10, 0, 5, 2], "d": [12, 0, 7, 3, 9, 1], "e": [16, 0, 8, 4, 12, 2, 10, 6]}
 
 
-UNIFORM_LENGTHS = {k: 3 for k in LENGTHS}
+UNIFORM_LENGTHS = {k: (3 if k != "s" else 1) for k in LENGTHS}
 UNIFORM_SUBSET_POS = {k: [2, 0] for k in SUBSET_POS}
 MODE = {"lengths": "distinct"}     # "uniform": all dimensions (and all selections) have the same length, so that a
 #                                    shape comparison cannot tell two dimensions apart (silent-transposition class)
@@ -78,9 +78,10 @@ class World:
     def dimset(self, letters, dims=None):
         return self.it.construct(self.DimensionSet, [], dict(dim_list=[(dims or {}).get(l) or self.dim(l) for l in letters]))
 
-    def array(self, name, letters, cls=None, dimobjs=None, **extra):
+    def array(self, name, letters, cls=None, dimobjs=None, dtype="float", **extra):
         ds = self.dimset(letters, dimobjs)
         vals = NP.leaf(name, [tuple(d.f["items"]) for d in ds.f["dim_list"]])
+        vals.dtype = dtype
         return self.it.construct(cls or self.FlodymArray, [], dict(dims=ds, values=vals, name=name, **extra))
 
     def user_ndarray(self, name, axes_items):
